@@ -6,9 +6,11 @@
     eq_total, eq_iff_norm, eq_iff_atoms, eq_refl, eq_symm, eq_trans, eq_split_insensitive,
     eq_empty_fragment_insensitive, eq_ignores_formatter, norm_normal,
     render_spec, render_any_writer, render_recorded, lookup_first_wins, lookup_absent_iff,
-    render_owned_borrowed_same, render_same_of_eq
+    render_owned_borrowed_same, render_same_of_eq,
+    macro_parts_norm, macro_eq_meaning, macro_plain_literal_same
 -/
 import EmitModel.Lemmas.Template
+import EmitModel.Lemmas.TemplateMacro
 
 namespace EmitModel.C16
 open EmitModel.Template
@@ -183,6 +185,68 @@ example : eq [.hole [0x78] none] [.hole [0x78] (some 0)] = .ok true ∧
   · decide
 example : NoFmt [.text [0x61], .hole [0x78] none] := by
   intro l f h; simp at h; exact h.2
+
+/-! ## Macro-built templates (fv_template scanner + macros/src/template.rs:88-199 visitor)
+
+`macroParts ext src` is the parts array the macros generate for the template literal whose SOURCE text (between the
+quotes) is `src` — after `fix: evaluate escape sequences in the text of macro template literals` (before it the text
+kept backslash escapes verbatim: `emit::tpl!("tab\there")` rendered a backslash and a `t`).
+`literalMeaning src` reads the literal unit by unit (`specText`: a backslash escape is the character it denotes,
+`{{` is `{`, `}}` is `}`; `{ … }` is a hole named by the key identifier of its field-value). -/
+
+open EmitModel.TemplateMacro in
+/-- The parts generated for a literal normalise to the literal's meaning — for every literal the scanner and the
+    visitor accept, any `#[emit::fmt]` flags, however the scanner happened to cut the text. -/
+theorem macro_parts_norm (ext : List (List Char × List Char)) (src : List Char) (parts : List MPart)
+    (h : macroParts ext src = some parts) : literalMeaning src = some (norm (toParts parts)) := by
+  unfold macroParts at h
+  unfold literalMeaning
+  split at h
+  · simp at h
+  · rename_i segs hsegs
+    rw [hsegs]
+    simp only [toParts, visitAll_spec ext segs parts 0 (segments_ok hsegs) h, Option.map_some, norm_strip]
+
+open EmitModel.TemplateMacro in
+/-- Hence a macro-built template `==` (real `PartialEq`) any hand-built template with that meaning. -/
+theorem macro_eq_meaning (ext : List (List Char × List Char)) (src : List Char) (parts : List MPart)
+    (h : macroParts ext src = some parts) (other : List Part) (ho : literalMeaning src = some (norm other)) :
+    eq (toParts parts) other = .ok true := by
+  rw [macro_parts_norm ext src parts h] at ho
+  rw [eq_iff_norm]
+  simp only [Option.some.injEq] at ho
+  simp [ho]
+
+open EmitModel.TemplateMacro in
+/-- A literal without braces and backslashes is one text part holding the literal itself: the macro-built template
+    is the `Template::literal` of the same text. -/
+theorem macro_plain_literal_same (ext : List (List Char × List Char)) (src : List Char) (h : NoBrace src)
+    (hb : src.contains '\\' = false) : macroParts ext src = some [.text src] ∧ toParts [.text src] = literal (utf8 src) := by
+  refine ⟨?_, rfl⟩
+  unfold macroParts segments
+  by_cases he : src = []
+  · subst he
+    simp [visitAll, visitSeg, finishText, unescapeText]
+  · have : src.isEmpty = false := by cases src <;> simp_all
+    simp only [this, Bool.false_eq_true, if_false, textMode_plain src [] false h, List.nil_append]
+    have hb' : '\\' ∉ src := by simpa using hb
+    simp [flushText, this, visitAll, visitSeg, finishText, unescapeText, hb']
+
+open EmitModel.TemplateMacro in
+/-- the hypothesis of `macro_parts_norm` is met by real literals: `"{{{x}\n"` (source text) -/
+example : macroParts [] ['{', '{', '{', 'x', '}', '\\', 'n'] = some [.text ['{'], .hole ['x'] none, .text ['\n']] := by
+  simp [macroParts, segments, textMode, holeMode, flushText, visitAll, visitSeg, finishText, finishHole, replaceDouble,
+    unescapeText, unescape, unescapeSt, escChar, parseHole, isWs, isIdentChar]
+open EmitModel.TemplateMacro in
+/-- and literals the macros reject have no parts: `"a}"`, `"{"` -/
+example : macroParts [] ['a', '}'] = none ∧ macroParts [] ['{'] = none := by
+  simp [macroParts, segments, textMode]
+open EmitModel.TemplateMacro in
+example : NoBrace ['h', 'i'] ∧ ['h', 'i'].contains '\\' = false := by
+  refine ⟨?_, by decide⟩
+  intro c hc
+  simp only [List.mem_cons, List.not_mem_nil, or_false] at hc
+  rcases hc with rfl | rfl <;> decide
 
 /-! Non-vacuity / sanity: the D12 reproducers now compare as the property demands, and unequal things stay unequal. -/
 example : eq [.text [0x61, 0xc3, 0xa9], .hole [0x78] none] [.text [0x61, 0x62], .hole [0x78] none] = .ok false := by
